@@ -70,3 +70,11 @@ Example C14_nonvacuous :
   plan_of src (r_dst r) o = {| transfer := []; skipped := 3; sp_delete := [] |} /\
   (r_kind r2, r_exit_ok r2, r_sent r2) = (UpToDate, true, 0) /\ r_dst r2 = r_dst r.
 Proof. vm_compute. repeat split. Qed.
+
+(** The model the theorems above are about is the translation of src/bin/copia/plan.rs (needs_transfer, glob_match) as it is now: the function
+    generated from the source by tools/gen_logic.py (Gen/PlanGen.v) equals, on every input, Model/Plan.v needs_transfer and Model/Glob.v glob_match (the source's index-based loops are proved equal to the suffix-based loop)
+    (statement: Proofs/TiePlan.v, [plan_model_is_translation]). *)
+Require Copia.Proofs.TiePlan.
+Theorem C14_model_is_translation_of_source : TiePlan.plan_model_is_translation.
+Proof. exact TiePlan.plan_model_is_translation_holds. Qed.
+Print Assumptions C14_model_is_translation_of_source.
